@@ -593,3 +593,165 @@ def c15_learned_timeout_script(rng, name, silence_at=12, pt=60):
         if t > silence_at + pt:
             ops += ["nframe 2 %s" % hx(eth_frame("020000000001", "020000000002")), "ndeliver 0", "ndeliver 0"]
     return Script(name, ops, {"suite": "node", "noshrink": True})
+
+
+# ------------------------------------------------------------------------------------------------
+# messages of an honest key holder with arbitrary content (`nseal`): close, keepalive, unknown types, and node
+# information with any peer list / claims / timeout.  `<idN>` stands for the (random) node id of node N.
+
+def ni_addr(a):
+    """address text for the encoder: 'p7' = [::]:7 (a simulated node), or (hex ip, port)"""
+    if isinstance(a, str):
+        return bytes(16), int(a[1:])
+    ip, port = a
+    return bytes.fromhex(ip), port
+
+
+def ni_addr_list(addrs, flag=0):
+    v6 = [ni_addr(a) for a in addrs if len(ni_addr(a)[0]) == 16][:7]
+    v4 = [ni_addr(a) for a in addrs if len(ni_addr(a)[0]) == 4][:7]
+    out = "%02x" % (flag + 8 * len(v6) + len(v4))
+    return out, "".join(ip.hex() + "%04x" % port for ip, port in v6 + v4)
+
+
+def ni_part(tag, body_hex):
+    # body may contain <idN> tokens: 16 bytes each
+    n = 0
+    rest = body_hex
+    while "<id" in rest:
+        i = rest.index("<id")
+        j = rest.index(">", i)
+        n += 16
+        rest = rest[:i] + rest[j + 1:]
+    n += len(rest) // 2
+    return "%02x%04x%s" % (tag, n, body_hex)
+
+
+def node_info_hex(node_id, peers=(), claims=(), peer_timeout=None, addrs=(), extra_parts=()):
+    """hex text of `01 ++ NodeInfo::encode` (message type byte + node information).
+    node_id: hex text or '<idN>'; peers: list of (node id or None, [addresses]); claims: list of 'hexbase/prefix'"""
+    plist = ""
+    for nid, pa in peers:
+        fl, body = ni_addr_list(pa, 0x80 if nid is not None else 0)
+        plist += fl + (nid or "") + body
+    cl = ""
+    for c in claims:
+        base, prefix = c.split("/")
+        cl += "%02x%s%02x" % (len(base) // 2, base, int(prefix))
+    fl, body = ni_addr_list(addrs)
+    s = ni_part(4, node_id) + ni_part(1, plist) + ni_part(2, cl)
+    if peer_timeout is not None:
+        s += ni_part(3, "%04x" % peer_timeout)
+    for tag, b in extra_parts:
+        s += ni_part(tag, b)
+    s += ni_part(5, fl + body) + "00"
+    return "01" + s
+
+
+def full_mesh(rng, nports, seconds=3, **kw):
+    ports = list(range(1, nports + 1))
+    ops = mesh(rng, nports, **kw)
+    ops += connect_chain(nports)
+    t = 0
+    for _ in range(seconds):
+        t += 1
+        ops += second(ports, t)
+    return ops, t
+
+
+def close_script(rng, name, mode="router", dev="tun", algos=CHACHA):
+    """a peer says goodbye (MESSAGE_TYPE_CLOSE, as `run()` broadcasts at shutdown): it must be removed with its routes and learned
+    addresses at once; frames for it are then dropped (router) or flooded; the other connection is untouched"""
+    ports = [1, 2, 3]
+    ops, t = full_mesh(rng, 3, mode=mode, dev=dev, algos=algos, ka="1")
+    macs = ["02000000000%d" % x for x in ports]
+
+    def frame(a, b):
+        return hx(ipv4_packet(ip4(a), ip4(b), rng.bytes(3))) if dev == "tun" else hx(eth_frame(macs[b - 1], macs[a - 1]))
+    for a in ports:
+        for b in ports:
+            if a != b:
+                ops += ["nframe %d %s" % (a, frame(a, b))] + drain(3)
+    ops += ["nseal 3 p1 ff"] + drain(3)             # node 3 closes towards node 1 only
+    for (a, b) in ((1, 3), (1, 2), (2, 3), (2, 1)):
+        ops += ["nframe %d %s" % (a, frame(a, b))] + drain(3)
+    for _ in range(3):
+        t += 1
+        ops += second(ports, t)
+    ops += ["nseal 2 p1 ff", "nseal 2 p3 ff"] + drain(4)   # node 2 shuts down
+    for (a, b) in ((1, 2), (3, 2), (1, 3)):
+        ops += ["nframe %d %s" % (a, frame(a, b))] + drain(3)
+    return Script(name, ops, {"suite": "node"})
+
+
+def announce_script(rng, name, length, mode="router", dev="tun"):
+    """an established, honest peer announces arbitrary node information: claims grow, shrink, are permuted and duplicated; its peer list names
+    the receiver itself (addresses must be adopted, not dialled), nodes the receiver already knows under another address (not dialled) and
+    unknown nodes (dialled); advertised timeouts vary; keepalives and unknown message types in between"""
+    ports = [1, 2, 3]
+    ops, t = full_mesh(rng, 3, mode=mode, dev=dev, ka="1")
+    universe = ["0a000100/24", "0a000180/25", "0a0001c0/26", "0a000000/8", "0a000102/32", "00000000/0", "fd000000000000000000000000000000/8", "020000000002/48"]
+    for step in range(length):
+        a = rng.choice([2, 3])
+        k = rng.below(10)
+        if k < 6:
+            cl = [c for c in universe if rng.chance(1, 3)]
+            rng.shuffle(cl)
+            if cl and rng.chance(1, 4):
+                cl.append(cl[0])
+            peers = []
+            if rng.chance(1, 2):
+                # the receiver itself under foreign addresses
+                peers.append(("<id1>", [rng.choice(["p61", "p62", ("c0a80001", 3210), ("20010db8000000000000000000000001", 3210)]) for _ in range(rng.range(1, 3))]))
+            if rng.chance(1, 2):
+                # a node the receiver is already connected to, listed under an address the receiver does not know
+                other = 5 - a
+                peers.append(("<id%d>" % other, [rng.choice(["p7%d" % other, ("c0a8000%d" % other, 3210)])]))
+            if rng.chance(1, 3):
+                peers.append((rng.bytes(16).hex() if rng.chance(1, 2) else None, ["p%d" % rng.range(80, 84)]))
+            if rng.chance(1, 3):
+                peers.append(("<id%d>" % (5 - a), ["p%d" % (5 - a)]))
+            rng.shuffle(peers)
+            pt = rng.choice([None, 300, 300, 60, 1, 0, 65535])
+            extra = [(9, rng.bytes(rng.below(5)).hex())] if rng.chance(1, 5) else []
+            ops.append("nseal %d p1 %s" % (a, node_info_hex("<id%d>" % a, peers, cl, pt, ["p%d" % a], extra)))
+        elif k < 8:
+            ops.append("nseal %d p1 02" % a)
+        elif k < 9:
+            # (no malformed ROTATION messages, type 0x10: the session parses them from the receive buffer including what is left behind the
+            #  message, and a proposed key of the wrong length panics in derive_key — only a key holder can produce them; DESIGN.md, observations)
+            ops.append("nseal %d p1 %s" % (a, rng.choice(["07", "03aabb", "fe00", "01", "0100", "01040010"])))
+        else:
+            dst = rng.choice(["0a000101", "0a0001c1", "0a000102", "0b000001", ip4(2), ip4(3)])
+            ops.append("nframe 1 %s" % hx(ipv4_packet(ip4(1), dst, rng.bytes(2)) if dev == "tun" else eth_frame("020000000002", "020000000001")))
+        ops += drain(4)
+        # attempts towards addresses nobody listens on: drop what is still in flight
+        if rng.chance(1, 4):
+            t += 1
+            ops += second(ports, t)
+    return Script(name, ops, {"suite": "node"})
+
+
+def plain_script(rng, name, kinds, mode="router", dev="tun", seconds=5):
+    """meshes whose nodes enabled 'plain': sessions are unencrypted only where BOTH ends enabled it; traffic, announcements and
+    forged datagrams in such meshes"""
+    ports = list(range(1, len(kinds) + 1))
+    ops = ["nkeys 2 %s" % rng.bytes(6).hex()]
+    for p, plain in zip(ports, kinds):
+        al = algos_str(plain, [("chacha", 400.0), ("aes128", 300.0)]) if plain != "only" else algos_str(True, [])
+        ops.append(node_line(p, mode=mode, dev=dev, key=(p - 1) % 2, trust=(0, 1), algos=al, ka="1"))
+    ops += connect_chain(len(ports))
+    t = 0
+    macs = ["02000000000%d" % x for x in ports]
+    for _ in range(seconds):
+        t += 1
+        ops += second(ports, t)
+        for _ in range(2):
+            a, b = rng.choice(ports), rng.choice(ports)
+            f = ipv4_packet(ip4(a), ip4(b), rng.bytes(rng.below(6))) if dev == "tun" else eth_frame(macs[b - 1], macs[a - 1])
+            ops += ["nframe %d %s" % (a, hx(f))] + drain(len(ports))
+        v = rng.choice(ports)
+        # forged datagrams from addresses that are no peers (a plain session itself offers no protection against a spoofed source: outside the properties)
+        ops.append("ninject %d %s %s" % (v, rng.choice(["p77", "p78"]), hx(bytes([rng.choice([0, 1, 2, 0xff, 0x10])]) + rng.bytes(rng.below(30)))))
+        ops += drain(3)
+    return Script(name, ops, {"suite": "node"})
